@@ -7,7 +7,7 @@ for d in seeded/*/; do
   name=$(basename $d); prop=${name%-*}
   wt=$(mktemp -d /tmp/mxwt.XXXXXX); rmdir $wt
   git -C /repo worktree add -q --detach $wt HEAD || continue
-  if git -C $wt apply $d/patch.diff 2>/dev/null; then
+  if git -C $wt apply /verif/$d/patch.diff 2>/dev/null; then
     out=$(VERIF_SEED=$sd ./bin/vcheck $prop --tier quick --repo $wt 2>&1); rc=$?
     echo "MATRIX seed=$sd $name check=$prop rc=$rc violations=$(echo "$out" | grep -c '^VIOLATION')"
     echo "$out" | grep '^VIOLATION' | sed 's/.*replay=//' | while read f; do case "$f" in */v-*.json) rm -f "$f";; esac; done
